@@ -307,5 +307,46 @@ func originOfTuple(p *GoProg, e ast.Expr, i, depth int, seen map[types.Object]bo
 	if n == 0 {
 		return org{"bad", "result of " + fn.Name() + " (no explicit return values)"}
 	}
+	// "handed in by the caller" inside the callee means: handed in by *this* call. What this call hands in has an origin
+	// of its own (a wrapper that takes the reuse value out of a pool and passes it on is not the API caller's value).
+	if out.class == "caller" || (out.class == "mixed" && strings.Contains(out.why, "caller")) {
+		argClass := ""
+		for _, a := range call.Args {
+			t := p.Info.TypeOf(a)
+			if t == nil {
+				continue
+			}
+			isPJ := func(t types.Type) bool {
+				pt, ok := t.(*types.Pointer)
+				if !ok {
+					return false
+				}
+				nm, ok := pt.Elem().(*types.Named)
+				return ok && (nm.Obj().Name() == "ParsedJson" || nm.Obj().Name() == "internalParsedJson") && nm.Obj().Pkg() == p.Pkg.Types
+			}
+			ch, isCh := t.Underlying().(*types.Chan)
+			if !isPJ(t) && !(isCh && isPJ(ch.Elem())) {
+				continue
+			}
+			ao := originOf(a, depth+1, seen)
+			if ao.class == "bad" {
+				return org{"bad", ao.why + " (passed to " + fn.Name() + ", which hands it back)"}
+			}
+			switch {
+			case argClass == "" || argClass == "nil":
+				argClass = ao.class
+			case ao.class == "nil" || ao.class == argClass:
+			default:
+				argClass = "mixed"
+			}
+		}
+		switch argClass {
+		case "nil", "fresh":
+			if out.class == "caller" {
+				return org{argClass, ""}
+			}
+			return org{"fresh", ""}
+		}
+	}
 	return out
 }
